@@ -19,11 +19,11 @@ IsBoundary(bs, i) ==
 WidthOfLead(b) == IF b < 128 THEN 1 ELSE IF b < 224 THEN 2 ELSE IF b < 240 THEN 3 ELSE 4
 
 \* 0-based offset at which the last character of a non-empty valid text starts
+\* (total: on bytes that are not valid UTF-8 it still returns an offset below the length)
 LastCharStart(bs) ==
-  LET n == Len(bs) IN
-  CHOOSE i \in Max(0, n - 4)..(n - 1) :
-     /\ ~IsCont(bs[i + 1])
-     /\ \A j \in (i + 1)..(n - 1) : IsCont(bs[j + 1])
+  LET n == Len(bs)
+      C == {i \in Max(0, n - 4)..(n - 1) : ~IsCont(bs[i + 1]) /\ \A j \in (i + 1)..(n - 1) : IsCont(bs[j + 1])} IN
+  IF C = {} THEN n - 1 ELSE CHOOSE i \in C : TRUE
 
 \* Well-formed UTF-8 (Unicode 15, Table 3-7).  Width of the well-formed
 \* sequence starting at offset i (0-based), or 0 if there is none.
@@ -53,7 +53,7 @@ ValidUtf8(bs) == (\A i \in 1..Len(bs) : bs[i] >= 0 /\ bs[i] <= 255) /\ ValidFrom
 RECURSIVE CharsFrom(_, _)
 CharsFrom(bs, i) ==
   IF i >= Len(bs) THEN <<>>
-  ELSE LET w == WidthOfLead(bs[i + 1]) IN <<SubSeq(bs, i + 1, i + w)>> \o CharsFrom(bs, i + w)
+  ELSE LET w == Min(WidthOfLead(bs[i + 1]), Len(bs) - i) IN <<SubSeq(bs, i + 1, i + w)>> \o CharsFrom(bs, i + w)
 Chars(bs) == CharsFrom(bs, 0)
 
 RECURSIVE Concat(_)
